@@ -88,15 +88,16 @@ structure Disarmed (w w' : World) : Prop where
   ents : w'.ents = w.ents
   fired : w'.fired = w.fired
   connReqs : w'.connReqs = w.connReqs
+  nextDfd : w'.nextDfd = w.nextDfd
   req : ∀ rid, (w'.req rid).dfd = (w.req rid).dfd ∧ (w'.req rid).msgId = (w.req rid).msgId ∧
     ((w.req rid).alarm = none → (w'.req rid).alarm = none)
   /-- the request objects keep their packet bytes, kind and QoS (only `alarm` is cleared) -/
   same : ∀ rid, (w'.req rid).encoded = (w.req rid).encoded ∧ (w'.req rid).kind = (w.req rid).kind ∧ (w'.req rid).qos = (w.req rid).qos
 
-theorem Disarmed.refl (w : World) : Disarmed w w := ⟨rfl, rfl, rfl, rfl, fun _ => ⟨rfl, rfl, id⟩, fun _ => ⟨rfl, rfl, rfl⟩⟩
+theorem Disarmed.refl (w : World) : Disarmed w w := ⟨rfl, rfl, rfl, rfl, rfl, fun _ => ⟨rfl, rfl, id⟩, fun _ => ⟨rfl, rfl, rfl⟩⟩
 
 theorem Disarmed.trans {w1 w2 w3 : World} (a : Disarmed w1 w2) (b : Disarmed w2 w3) : Disarmed w1 w3 :=
-  ⟨by rw [b.protos, a.protos], by rw [b.ents, a.ents], by rw [b.fired, a.fired], by rw [b.connReqs, a.connReqs],
+  ⟨by rw [b.protos, a.protos], by rw [b.ents, a.ents], by rw [b.fired, a.fired], by rw [b.connReqs, a.connReqs], by rw [b.nextDfd, a.nextDfd],
    fun rid => ⟨by rw [(b.req rid).1, (a.req rid).1], by rw [(b.req rid).2.1, (a.req rid).2.1], fun h => (b.req rid).2.2 ((a.req rid).2.2 h)⟩,
    fun rid => ⟨by rw [(b.same rid).1, (a.same rid).1], by rw [(b.same rid).2.1, (a.same rid).2.1], by rw [(b.same rid).2.2, (a.same rid).2.2]⟩⟩
 
@@ -141,7 +142,7 @@ theorem cancelLoop_inv (p : Nat) (ppr : Proto) (hnl : ppr.lost = false) :
       have hreq : ∀ r, (disarm w e t).req r = if e.rid = r then { w.req e.rid with alarm := none } else w.req r :=
         fun r => req_set w e.rid _ r _ rfl
       have hdis : Disarmed w (disarm w e t) := by
-        refine ⟨rfl, rfl, rfl, rfl, fun rid => ?_, fun rid => ?_⟩
+        refine ⟨rfl, rfl, rfl, rfl, rfl, fun rid => ?_, fun rid => ?_⟩
         · rw [hreq]
           by_cases hr : e.rid = rid
           · subst hr; simp
@@ -167,11 +168,39 @@ structure Removed (w w' : World) : Prop where
   timers : w'.timers = w.timers
   connReqs : w'.connReqs = w.connReqs
   sub : ∀ y ∈ w'.ents, y ∈ w.ents
+  nextDfd : w'.nextDfd = w.nextDfd
+  fmono : ∀ d ∈ w.fired, d ∈ w'.fired
+  /-- an entry that left its container had no identifier (a held-back QoS 0 message) or has had its Deferred fired -/
+  gone : ∀ y ∈ w.ents, y ∈ w'.ents ∨ (w.req y.rid).msgId = 0 ∨ ∀ d, (w.req y.rid).dfd = some d → d ∈ w'.fired
 
-theorem Removed.refl (w : World) : Removed w w := ⟨rfl, rfl, rfl, rfl, fun _ h => h⟩
+theorem Removed.refl (w : World) : Removed w w := ⟨rfl, rfl, rfl, rfl, fun _ h => h, rfl, fun _ h => h, fun _ h => Or.inl h⟩
 theorem Removed.trans {w1 w2 w3 : World} (a : Removed w1 w2) (b : Removed w2 w3) : Removed w1 w3 :=
   ⟨by rw [b.reqs, a.reqs], by rw [b.protos, a.protos], by rw [b.timers, a.timers], by rw [b.connReqs, a.connReqs],
-   fun y hy => a.sub y (b.sub y hy)⟩
+   fun y hy => a.sub y (b.sub y hy), by rw [b.nextDfd, a.nextDfd], fun d hd => b.fmono d (a.fmono d hd),
+   fun y hy => by
+     rcases a.gone y hy with h1 | h1 | h1
+     · rcases b.gone y h1 with h2 | h2 | h2
+       · exact Or.inl h2
+       · exact Or.inr (Or.inl (by rw [req_of_reqs a.reqs] at h2; exact h2))
+       · exact Or.inr (Or.inr (fun d hd => h2 d (by rw [req_of_reqs a.reqs]; exact hd)))
+     · exact Or.inr (Or.inl h1)
+     · exact Or.inr (Or.inr (fun d hd => b.fmono d (h1 d hd)))⟩
+
+theorem Removed.kq {w w' : World} (r : Removed w w') : KQ w w' := by
+  intro hq
+  refine ⟨⟨fun d hd => ?_, r.fmono, by rw [r.nextDfd]; exact Nat.le_refl _, fun d h1 h2 => absurd h2 (by rw [r.nextDfd]; omega)⟩, ?_⟩
+  · rcases hd with ⟨y, hy, hyd⟩ | ⟨cr, c, c1, c2⟩
+    · rcases r.gone y hy with h1 | h1 | h1
+      · exact Or.inr (Or.inl ⟨y, h1, by rw [req_of_reqs r.reqs]; exact hyd⟩)
+      · rw [hq y hy h1] at hyd; cases hyd
+      · exact Or.inl (h1 d hyd)
+    · exact Or.inr (Or.inr ⟨cr, c, by rw [r.connReqs]; exact c1, c2⟩)
+  · intro y hy hm
+    rw [req_of_reqs r.reqs] at hm ⊢
+    exact hq y (r.sub y hy) hm
+
+theorem Disarmed.coreSame {w w' : World} (d : Disarmed w w') : CoreSame w w' :=
+  ⟨d.ents, d.fired, d.connReqs, d.nextDfd, fun r => ⟨(d.req r).1, (d.req r).2.1⟩⟩
 
 theorem failLoop_inv {x : Option Nat} (box : Box) (hbq : box ≠ .queue) (reason : Err) :
     ∀ (l : List Ent) {w : World}, WInvX x w → (∀ e ∈ l, e ∈ w.ents ∧ e.box = box ∧ (w.req e.rid).alarm = none) → l.Nodup →
@@ -210,7 +239,14 @@ theorem failLoop_inv {x : Option Nat} (box : Box) (hbq : box ≠ .queue) (reason
       exact ⟨(hmem e').mpr ⟨a, fun hc => hnd'.1 (hc ▸ he')⟩, b, c⟩
     obtain ⟨r1, r2, r3, r4⟩ := ih hS hl' hnd'.2
     have hrem : Removed w (fireD (w.setEnts fun es => Ents.remove es e.addr e.box e.key) d (.fired d (.fail reason))) :=
-      ⟨rfl, rfl, rfl, rfl, fun y hy => ((hmem y).mp hy).1⟩
+      ⟨rfl, rfl, rfl, rfl, fun y hy => ((hmem y).mp hy).1, rfl, fun d' hd' => by simp only [fireD, List.mem_cons]; exact Or.inr hd',
+       fun y hy => by
+         by_cases hye : y = e
+         · subst hye
+           right; right; intro d' hd'
+           rw [hd] at hd'; injection hd' with hd'; subst hd'
+           simp [fireD]
+         · exact Or.inl ((hmem y).mpr ⟨hy, hye⟩)⟩
     refine ⟨r1, r2, hrem.trans r3, fun y => ?_⟩
     rw [r4 y]
     have := hmem y
@@ -243,9 +279,13 @@ theorem drainQueue_inv {x : Option Nat} (p : Nat) (reason : Err) (fuel : Nat) :
       have h1 : WInvX x (w.setEnts fun es => Ents.dropFirst es (w.paddr p) .queue) := dropQuiet_inv h hal _ hd3 hd1
       have s0 : setEnts (fun es => Ents.dropFirst es (w.paddr p) .queue) w = (w.setEnts fun es => Ents.dropFirst es (w.paddr p) .queue, none) := rfl
       rw [seq_ok s0]
-      have hrem1 : Removed w (w.setEnts fun es => Ents.dropFirst es (w.paddr p) .queue) := ⟨rfl, rfl, rfl, rfl, fun y hy => ((hd1 y).mp hy).1⟩
       by_cases hm0 : (w.req e.rid).msgId = 0
-      · simp only [hm0, ne_eq, not_true_eq_false, ↓reduceIte]
+      · have hrem1 : Removed w (w.setEnts fun es => Ents.dropFirst es (w.paddr p) .queue) :=
+          ⟨rfl, rfl, rfl, rfl, fun y hy => ((hd1 y).mp hy).1, rfl, fun _ hd' => hd', fun y hy => by
+            by_cases hye : y = e
+            · subst hye; exact Or.inr (Or.inl hm0)
+            · exact Or.inl ((hd1 y).mpr ⟨hy, hye⟩)⟩
+        simp only [hm0, ne_eq, not_true_eq_false, ↓reduceIte]
         have s1 : Step.ok (w.setEnts fun es => Ents.dropFirst es (w.paddr p) .queue) = (_, none) := rfl
         rw [seq_ok s1]
         obtain ⟨r1, r2, r3, r4⟩ := ih h1
@@ -281,9 +321,16 @@ theorem drainQueue_inv {x : Option Nat} (p : Nat) (reason : Err) (fuel : Nat) :
           rw [hd]; exact fireDfd_unfired _ d _ hdf.2
         rw [seq_ok s1]
         obtain ⟨r1, r2, r3, r4⟩ := ih h2
-        have hrem2 : Removed (w.setEnts fun es => Ents.dropFirst es (w.paddr p) .queue)
-            (fireD (w.setEnts fun es => Ents.dropFirst es (w.paddr p) .queue) d (.fired d (.fail reason))) := ⟨rfl, rfl, rfl, rfl, fun y hy => hy⟩
-        refine ⟨r1, r2, (hrem1.trans hrem2).trans r3, ?_⟩
+        have hrem12 : Removed w (fireD (w.setEnts fun es => Ents.dropFirst es (w.paddr p) .queue) d (.fired d (.fail reason))) :=
+          ⟨rfl, rfl, rfl, rfl, fun y hy => ((hd1 y).mp hy).1, rfl, fun d' hd' => by simp only [fireD, List.mem_cons]; exact Or.inr hd',
+           fun y hy => by
+             by_cases hye : y = e
+             · subst hye
+               right; right; intro d' hd'
+               rw [hd] at hd'; injection hd' with hd'; subst hd'
+               simp [fireD]
+             · exact Or.inl ((hd1 y).mpr ⟨hy, hye⟩)⟩
+        refine ⟨r1, r2, hrem12.trans r3, ?_⟩
         have hpa' : (fireD (w.setEnts fun es => Ents.dropFirst es (w.paddr p) .queue) d (.fired d (.fail reason))).paddr p = w.paddr p := rfl
         rw [hpa'] at r4
         rw [r4]
@@ -326,7 +373,9 @@ theorem doConnectionLost_inv {w : World} (p : Nat) (ppr : Proto) (h : WInvX (som
     (ppr.cleanStart = false →
       ∀ y, y ∈ (doConnectionLost p reason w).1.ents ↔ y ∈ w.ents ∧ ¬ (y.addr = ppr.addr ∧ (y.box = .sub ∨ y.box = .unsub))) ∧
     (∀ rid, ((doConnectionLost p reason w).1.req rid).dfd = (w.req rid).dfd ∧ ((doConnectionLost p reason w).1.req rid).msgId = (w.req rid).msgId ∧
-      ((doConnectionLost p reason w).1.req rid).encoded = (w.req rid).encoded ∧ ((doConnectionLost p reason w).1.req rid).kind = (w.req rid).kind) := by
+      ((doConnectionLost p reason w).1.req rid).encoded = (w.req rid).encoded ∧ ((doConnectionLost p reason w).1.req rid).kind = (w.req rid).kind) ∧
+    KQ w (doConnectionLost p reason w).1 ∧
+    (∀ y ∈ (doConnectionLost p reason w).1.ents, y ∈ w.ents) ∧ (doConnectionLost p reason w).1.connReqs = w.connReqs := by
   have hpa : w.paddr p = ppr.addr := by simp [World.paddr, getD_of_get? hpp]
   have hitems : ∀ (b : Box) (w' : World), w'.ents = w.ents → ∀ e ∈ Ents.items w.ents ppr.addr b, e ∈ w'.ents ∧ e.addr = ppr.addr :=
     fun b w' hw' e he => ⟨hw' ▸ (Ents.mem_items.mp he).1, (Ents.mem_items.mp he).2.1⟩
@@ -387,13 +436,13 @@ theorem doConnectionLost_inv {w : World} (p : Nat) (ppr : Proto) (h : WInvX (som
   rw [seq_ok s5, seq_ok s6, read_apply, getD_of_get? hpp6]
   by_cases hcs : ppr.cleanStart = true
   · rw [if_pos hcs]
-    obtain ⟨k1, k2, k3, k4, k5, k6, k7, k8, k9⟩ := purgeSession_inv g2 p reason
+    obtain ⟨k1, k2, k3, k4, k5, k6, k7, k8, k9, k10, k11, k12⟩ := purgeSession_inv g2 p reason
     obtain ⟨w7, hw7⟩ : ∃ w7, w7 = (purgeSession p reason w6).1 := ⟨_, rfl⟩
     have s7 : purgeSession p reason w6 = (w7, none) := by rw [hw7]; exact Prod.ext rfl k1
-    rw [← hw7] at k2 k3 k4 k5 k6 k7 k8 k9
+    rw [← hw7] at k2 k3 k4 k5 k6 k7 k8 k9 k10 k11 k12
     have hpa6 : w6.paddr p = ppr.addr := by simp [World.paddr, getD_of_get? hpp6]
     rw [seq_ok s7, read_apply]
-    have hrem7 : Removed w6 w7 := ⟨k3, k4, k5, k6, k7⟩
+    have hrem7 : Removed w6 w7 := ⟨k3, k4, k5, k6, k7, k10, k11, fun y hy => (k12 y hy).imp id Or.inr⟩
     obtain ⟨m1, m2, m3, m4⟩ := drainQueue_inv (x := some p) p reason (Ents.count w7.ents (w7.paddr p) .queue) k2
     have hrem := (hrem7.trans m3)
     have hreqs : ∀ (w' : World), w'.reqs = w6.reqs → ∀ rid, (w'.req rid).dfd = (w.req rid).dfd ∧ (w'.req rid).msgId = (w.req rid).msgId ∧
@@ -402,7 +451,9 @@ theorem doConnectionLost_inv {w : World} (p : Nat) (ppr : Proto) (h : WInvX (som
       rw [req_of_reqs hw', req_of_reqs g3.reqs, req_of_reqs f3.reqs]
       exact ⟨(d4.req rid).1, (d4.req rid).2.1, (d4.same rid).1, (d4.same rid).2.1⟩
     refine ⟨m1, m2, ?_, hq6.removed hrem, fun y hy hya => hns6 y (hrem.sub y hy) hya, fun _ y hy hya => ?_, (fun hc => by rw [hcs] at hc; cases hc),
-      hreqs _ hrem.reqs⟩
+      hreqs _ hrem.reqs, ((d4.coreSame.kq.trans f3.kq).trans g3.kq).trans hrem.kq,
+      fun y hy => by rw [← d4.ents]; exact f3.sub y (g3.sub y (hrem.sub y hy)),
+      by rw [hrem.connReqs, g3.connReqs, f3.connReqs, d4.connReqs]⟩
     · rw [hrem.protos, g3.protos, f3.protos, d4.protos]
     · have hpa7 : w7.paddr p = ppr.addr := by simp [World.paddr, World.proto, k4, hpp6]
       have hy7 := m3.sub y hy
@@ -417,7 +468,10 @@ theorem doConnectionLost_inv {w : World} (p : Nat) (ppr : Proto) (h : WInvX (som
         rw [m4] at hin
         simp [Ents.count] at hin
   · rw [if_neg hcs]
-    refine ⟨rfl, g2, by show w6.protos = w.protos; rw [g3.protos, f3.protos, d4.protos], hq6, hns6, fun hc => absurd hc hcs, fun _ y => ?_, ?_⟩
+    refine ⟨rfl, g2, by show w6.protos = w.protos; rw [g3.protos, f3.protos, d4.protos], hq6, hns6, fun hc => absurd hc hcs, fun _ y => ?_, ?_,
+      (d4.coreSame.kq.trans f3.kq).trans g3.kq,
+      fun y hy => by rw [← d4.ents]; exact f3.sub y (g3.sub y hy),
+      by show w6.connReqs = w.connReqs; rw [g3.connReqs, f3.connReqs, d4.connReqs]⟩
     · show y ∈ w6.ents ↔ _
       rw [g5 y, f5 y, hpa5, hpa4, d4.ents]
       simp only [Bool.false_eq_true, ↓reduceIte]
@@ -543,19 +597,40 @@ structure LostPost (w w' : World) (p : Nat) (ppr : Proto) : Prop where
   quiet : ∀ e ∈ w'.ents, e.addr = ppr.addr → e.box ≠ .queue → (w'.req e.rid).alarm = none
 
 /-- MQTTBaseProtocol.connectionLost, delivered once to a live protocol -/
-theorem connectionLost_full {w : World} (h : WInv w) (p : Nat) (ppr : Proto) (hpp : w.protos.get? p = some ppr)
+theorem connectionLost_owned {w : World} (h : WInv w) (p : Nat) (ppr : Proto) (hpp : w.protos.get? p = some ppr)
     (hnl : ppr.lost = false) (reason : Err) :
-    (connectionLost p reason w).2 = none ∧ WInv (connectionLost p reason w).1 ∧ LostPost w (connectionLost p reason w).1 p ppr := by
+    (connectionLost p reason w).2 = none ∧ WInv (connectionLost p reason w).1 ∧ LostPost w (connectionLost p reason w).1 p ppr ∧
+    KQ w (connectionLost p reason w).1 ∧ (∀ y ∈ (connectionLost p reason w).1.ents, y ∈ w.ents) ∧
+    (connectionLost p reason w).1.connReqs = w.connReqs := by
   simp only [connectionLost, read_apply, getD_of_get? hpp]
   obtain ⟨w1, s1, i1, hpp1, e1, r1, _, _⟩ := stopLoop_inv (WInvX.weaken (x := some p) h) p ppr hpp
+  have c1 : CoreSame w w1 := by
+    have : CS (match ppr.pingTimer with
+           | none => Step.ok
+           | some _ => loopStop p ;; setProto p (fun pr => { pr with pingTimer := none })) := by
+      split
+      · exact cs_ok
+      · exact cs_seq (cs_loopStop p) (cs_setProto _ _)
+    have := this w; rw [s1] at this; exact this
   erw [seq_ok s1]
   obtain ⟨w2, s2, i2, hpp2, e2, r2, _, _⟩ := stopAlarm_inv i1 p { ppr with pingTimer := none } hpp1 ppr.pingAlarm rfl
+  have c2 : CoreSame w1 w2 := by
+    have : CS (match ppr.pingAlarm with
+           | none => Step.ok
+           | some tid => cancelTimer tid ;; setProto p (fun pr => { pr with pingAlarm := none })) := by
+      split
+      · exact cs_ok
+      · exact cs_seq (cs_cancelTimer _) (cs_setProto _ _)
+    have := this w1; rw [s2] at this; exact this
   erw [seq_ok s2]
-  obtain ⟨a1, a2, a3, a4, a5, a6, a7, a8⟩ := doConnectionLost_inv p _ i2 hpp2 hnl reason
+  obtain ⟨a1, a2, a3, a4, a5, a6, a7, a8, a9, a10, a11⟩ := doConnectionLost_inv p _ i2 hpp2 hnl reason
   obtain ⟨w3, hw3⟩ : ∃ w3, w3 = (doConnectionLost p reason w2).1 := ⟨_, rfl⟩
   have s3 : doConnectionLost p reason w2 = (w3, none) := by rw [hw3]; exact Prod.ext rfl a1
-  rw [← hw3] at a2 a3 a4 a5 a6 a7 a8
+  rw [← hw3] at a2 a3 a4 a5 a6 a7 a8 a9 a10 a11
+  have hsub3 : ∀ y ∈ w3.ents, y ∈ w.ents := fun y hy => by rw [← c1.ents, ← c2.ents]; exact a10 y hy
+  have hcr3 : w3.connReqs = w.connReqs := by rw [a11, c2.connReqs, c1.connReqs]
   rw [seq_ok s3]
+  have k3 : KQ w w3 := (c1.trans c2).kq.trans a9
   have hpp3 : w3.protos.get? p = some { ppr with pingTimer := none, pingAlarm := none } := by rw [a3]; exact hpp2
   have hL := lost_inv a2 p _ hpp3 rfl rfl a4
   have s4 : setProto p (fun pr => { pr with state := .idle, lost := true }) w3
@@ -594,8 +669,15 @@ theorem connectionLost_full {w : World} (h : WInv w) (p : Nat) (ppr : Proto) (hp
         = (addTimerW (lostW w3 p { ppr with pingTimer := none, pingAlarm := none })
             ((lostW w3 p { ppr with pingTimer := none, pingAlarm := none }).now + ticks (1 / 10)) (.onDisc p reason), none) := rfl
     rw [s5]
-    exact ⟨rfl, addOnDisc_inv hW p _ hpp4 _ p reason, hpost _ rfl rfl hpp4⟩
-  · exact ⟨rfl, hW, hpost _ rfl rfl hpp4⟩
+    exact ⟨rfl, addOnDisc_inv hW p _ hpp4 _ p reason, hpost _ rfl rfl hpp4,
+      k3.trans (CoreSame.kq ⟨rfl, rfl, rfl, rfl, fun _ => ⟨rfl, rfl⟩⟩), hsub3, hcr3⟩
+  · exact ⟨rfl, hW, hpost _ rfl rfl hpp4, k3.trans (CoreSame.kq ⟨rfl, rfl, rfl, rfl, fun _ => ⟨rfl, rfl⟩⟩), hsub3, hcr3⟩
+
+theorem connectionLost_full {w : World} (h : WInv w) (p : Nat) (ppr : Proto) (hpp : w.protos.get? p = some ppr)
+    (hnl : ppr.lost = false) (reason : Err) :
+    (connectionLost p reason w).2 = none ∧ WInv (connectionLost p reason w).1 ∧ LostPost w (connectionLost p reason w).1 p ppr :=
+  have h4 := connectionLost_owned h p ppr hpp hnl reason
+  ⟨h4.1, h4.2.1, h4.2.2.1⟩
 
 theorem connectionLost_inv {w : World} (h : WInv w) (p : Nat) (ppr : Proto) (hpp : w.protos.get? p = some ppr)
     (hnl : ppr.lost = false) (reason : Err) :
